@@ -413,6 +413,12 @@ pub fn gen_proxy(seed: u64, prop: &str, tier: &str) -> Value {
     if prop == "C02" {
         return gen_c02(seed, &mut r, procs, o, dup_names, tier);
     }
+    if prop == "C07" {
+        return gen_c07(seed, &mut r, procs, tier);
+    }
+    if prop == "C11" {
+        return gen_c11(seed, &mut r, procs, tier);
+    }
     let oracles: Vec<&str> = match prop {
         "C01" => vec!["C01", "C03"],
         "C03" => vec!["C03", "C01"],
@@ -555,5 +561,112 @@ fn gen_c02(seed: u64, r: &mut Rng, procs: Value, o: RuleOpts, dup_names: bool, t
         "scenario": "proxy:C02", "seed": seed, "family": "proxy", "prop": "C02", "dup_names": dup_names,
         "knobs": knobs, "procs": procs, "users": users_json(), "steps": steps, "oracles": ["C02"],
         "config": {"pollKeyStatusIntervalInSeconds": 1 + r.below(5)}, "settle_ms": 500, "faulty": false
+    })
+}
+
+/// C07: histories over a tiny ephemeral range: attributed connection on port p -> close -> direct
+/// connection from port p; root then non-root on one port; keep-alive connections with many requests;
+/// several connections accepted in one instant.
+fn gen_c07(seed: u64, r: &mut Rng, procs: Value, tier: &str) -> Value {
+    let nprocs = procs.as_array().unwrap().len() as u64;
+    let nports = 1 + r.below(4);
+    let mut steps = Vec::new();
+    let doc = if r.chance(1, 2) { doc_v1("wireserver") } else { doc_v2(true, Some(json!({"imds": grant_all_item("imds-0", *r.pick(&["audit", "enforce", "disabled"]), "allow", None)}))) };
+    steps.push(json!({"t": "doc", "doc": doc}));
+    steps.push(json!({"t": "wait_polls", "n": 2, "max_s": 200}));
+    let mut tokn = 0u64;
+    let rounds = 2 + r.below(if tier == "thorough" { 8 } else { 5 });
+    for _ in 0..rounds {
+        // never more simultaneous client connections than ephemeral ports: a connect() that fails between
+        // the two kernel hooks (port exhaustion) is a kernel-level fault outside the claimed check
+        let nconn = 1 + r.below(nports.min(6));
+        let mut conns = Vec::new();
+        let same_instant = r.chance(1, 2);
+        for _ in 0..nconn {
+            let p = r.below(nprocs);
+            let dst = *r.pick(&["imds", "imds", "wire", "direct", "direct", "ga"]);
+            let nreq = if r.chance(1, 5) { 5 + r.below(16) } else { 1 + r.below(3) };
+            let mut reqs = Vec::new();
+            for _ in 0..nreq {
+                tokn += 1;
+                reqs.push(json!({"method": *r.pick(&["GET", "GET", "POST"]), "target": format!("{}?n={}", r.pick(&["/metadata/instance", "/machine", "/metadata/identity/oauth2/token"]), tokn), "headers": [["Host", host_name_of(dst)], ["Metadata", "true"]], "tok": format!("t{}", tokn)}));
+            }
+            let last = reqs.len() - 1;
+            if reqs[last]["method"] == "POST" {
+                reqs[last]["body"] = json!({"len": r.below(300), "seed": r.next() >> 8, "ascii": true});
+            }
+            let mut c = json!({"proc": p, "dst": dst, "start_ms": if same_instant { 0 } else { r.below(8) }, "pipeline": false, "gap_ms": r.below(2), "reqs": reqs});
+            // a client that connects and goes away at once (cancelled request, probe): its source port is
+            // free again while the proxy may not have looked at the connection yet
+            if dst != "direct" && r.chance(1, 5) {
+                c["reqs"] = json!([]);
+            } else if dst != "direct" && r.chance(1, 8) {
+                c["close"] = json!("reset_after_send");
+            }
+            conns.push(c);
+        }
+        steps.push(json!({"t": "clients", "conns": conns}));
+    }
+    steps.push(json!({"t": "sleep", "ms": 2000}));
+    steps.push(json!({"t": "audit_map_probe"}));
+    let mut knobs = gen_knobs(r, true);
+    knobs["net.connect_lat_max_ms"] = json!(*r.pick(&[0u64, 0, 1]));
+    json!({
+        "scenario": "proxy:C07", "seed": seed, "family": "proxy", "prop": "C07", "ports": [40000, nports],
+        "knobs": knobs, "procs": procs, "users": users_json(), "steps": steps, "oracles": ["C07", "C01", "C05"],
+        "config": {"pollKeyStatusIntervalInSeconds": 15}, "settle_ms": 3000, "faulty": false
+    })
+}
+
+/// C11: one mode per endpoint per phase, bursts of identical denials from one caller and from concurrent
+/// connections, mixtures of allowed and denied; the published summaries are collected at the end.
+fn gen_c11(seed: u64, r: &mut Rng, procs: Value, tier: &str) -> Value {
+    let nprocs = procs.as_array().unwrap().len() as u64;
+    let o = RuleOpts { allow_upper_paths: false, allow_dup_names: false, allow_missing_sections: false, allow_dangling: true };
+    let mut steps = Vec::new();
+    let mut tokn = 0u64;
+    let nphases = 1 + r.below(if tier == "thorough" { 3 } else { 2 });
+    for ph in 0..nphases {
+        let mut rules = serde_json::Map::new();
+        for ep in ["imds", "wireserver", "hostga"] {
+            let mode = *r.pick(&["enforce", "audit", "audit", "disabled"]);
+            let da = *r.pick(&["allow", "deny", "deny"]);
+            rules.insert(ep.to_string(), gen_item(r, &format!("{}-{}", ep, ph), &procs, &o, mode, da));
+        }
+        steps.push(json!({"t": "doc", "doc": doc_v2(true, Some(Value::Object(rules)))}));
+        steps.push(json!({"t": "wait_polls", "n": 2, "max_s": 200}));
+        let mut conns = Vec::new();
+        for _ in 0..1 + r.below(4) {
+            let dst = *r.pick(&["imds", "imds", "wire", "ga"]);
+            // WireServer/HostGAPlugin: elevated callers, so that only the rules can refuse
+            let p = if dst == "imds" { r.below(nprocs) } else { 0 };
+            let burst = r.chance(1, 3);
+            let nreq = if burst { 3 + r.below(10) } else { 1 + r.below(5) };
+            let base = format!("{}{}", r.pick(&RULE_PATHS).to_lowercase(), if r.chance(1, 3) { "?api-version=2018-02-01" } else { "" });
+            let mut reqs = Vec::new();
+            for _ in 0..nreq {
+                tokn += 1;
+                let target = if burst { base.clone() } else { format!("{}{}", r.pick(&RULE_PATHS).to_lowercase(), if r.chance(1, 3) { "?comp=goalstate" } else { "" }) };
+                reqs.push(json!({"method": "GET", "target": target, "headers": [["Host", host_name_of(dst)], ["Metadata", "true"]], "tok": format!("t{}", tokn)}));
+            }
+            let copies = if burst && r.chance(1, 2) { 2 + r.below(3) } else { 1 };
+            for _ in 0..copies {
+                let mut rq = reqs.clone();
+                for q in rq.iter_mut() {
+                    tokn += 1;
+                    q["tok"] = json!(format!("t{}", tokn));
+                }
+                conns.push(json!({"proc": p, "dst": dst, "start_ms": r.below(5), "pipeline": false, "reqs": rq}));
+            }
+        }
+        steps.push(json!({"t": "clients", "conns": conns}));
+    }
+    steps.push(json!({"t": "sleep", "ms": 125_000}));
+    steps.push(json!({"t": "collect_status"}));
+    let knobs = gen_knobs(r, false);
+    json!({
+        "scenario": "proxy:C11", "seed": seed, "family": "proxy", "prop": "C11",
+        "knobs": knobs, "procs": procs, "users": users_json(), "steps": steps, "oracles": ["C11", "C01"],
+        "config": {"pollKeyStatusIntervalInSeconds": 1 + r.below(5)}, "settle_ms": 1000, "faulty": false
     })
 }
